@@ -24,6 +24,18 @@ CHECKS = {
         design="5/C03"),
 }
 
+CHECKS["C18"] = dict(
+    text="The model buckets on the naive wall-clock axis and has no zone parameter, so zone independence of the model is definitional; "
+         "proved in Coq: bucketing by way of the local-time/epoch conversion (the pre-repair mechanism, finding F6) agrees with naive "
+         "bucketing for all timestamps iff the zone offset is a multiple of the timeframe, with a refutation witness for a half-hour zone. "
+         "That the running code equals the zone-free model is decided by executing the same construction/append sequences in "
+         "subprocesses under eight TZ values (UTC, half-hour, 45-minute and DST zones, streams on and off transition days) and comparing "
+         "every collapsed candle with the model bit for bit and across zones.",
+    note="Partial by nature: the OS time-zone database and the C library's local-time conversion are oracles no Gallina model can "
+         "exhibit; the theorem covers constant offsets, the execution covers the real zones on the sampled streams.",
+    technique="Coq proof about the bucketing arithmetic + vm_compute correspondence executed under 8 time zones + cross-zone falsifier",
+    design="5/C18")
+
 NOT_YET = {}
 
 
